@@ -68,7 +68,7 @@ class BaseNode(Node):
     def cast_value(self, value=None):
         """ Cast (raw-)value as a datatype self, or another node
         """
-        if not value:
+        if value is None:
             if self.value is None:
                 value = self.value_raw
             else:
@@ -132,7 +132,7 @@ class BaseNode(Node):
         """
         if value is None and self.value_raw:
             self.value = self.cast_value()
-        elif value:
+        elif value is not None:
             self.value = value
         else:
             self.value = None
